@@ -886,9 +886,27 @@ func propC16(c *Ctx) {
 				return false
 			}
 			if s.Kind == "sprintf" && s.Stmt != nil && len(s.Stmt.Verbs) > 0 && s.Stmt.Verbs[0] == "alter" {
-				for _, a := range s.FmtArgs {
-					root, _ := fieldChain(a)
+				var fromAdd func(a ssa.Value, d int) bool
+				fromAdd = func(a ssa.Value, d int) bool {
+					if a == nil || d > 3 {
+						return false
+					}
+					root, _ := fieldChain(stripConv(a))
 					if root != nil && fromDiffAdd(root) {
+						return true
+					}
+					// what a helper makes of the column (c.def(), quote(c.Name))
+					if call, isCall := stripConv(a).(*ssa.Call); isCall {
+						for _, x := range call.Call.Args {
+							if fromAdd(x, d+1) {
+								return true
+							}
+						}
+					}
+					return false
+				}
+				for _, a := range s.FmtArgs {
+					if fromAdd(a, 0) {
 						okAlter = true
 					}
 				}
